@@ -81,6 +81,15 @@ def handle (s : Sexp) : String :=
       let r := C26.run (C26.a2lVerbose (b verbose) (fun _ => b c1) (fun _ => b c2)) ⟨false, false⟩
       s!"({so r.2} {sb r.1.comment} {sb r.1.loops})"
     | _ => "bad-a2l"
+  | .list [.atom "alg", mode, rootOk, .list flags] =>
+    -- state = which invokes have been raised; invoke i is valid iff flag i
+    let fl := (Sexp.list flags).natList
+    let steps : List (C26.Step (List Bool)) := (List.range fl.length).map fun i =>
+      ⟨fun _ => b (fl.getD i 0), fun st => st.set i true⟩
+    let v : List Bool → Bool := fun _ => b (rootOk.nat?.getD 0)
+    let p := if mode.nat?.getD 0 == 0 then C26.algTransPinned v steps else C26.algTransFixed v steps
+    let r := C26.run p (fl.map fun _ => false)
+    s!"({so r.2} {showList sb r.1})"
   | .list (.atom "tile" :: rest) => handleTile C26.Tiling.tilingProg rest
   | .list (.atom "chunk" :: rest) => handleTile C26.Tiling.chunkTransProg rest
   | .list (.atom "swap" :: rest) => handleTile (fun _ => C26.Tiling.swapTransProg) rest
